@@ -125,6 +125,7 @@ def run(chk):
     progs += [gen_prog.Gen(rng).program().text for _ in range(40 if thorough else 6)]
     progs += [hierarchy_program(rng) for _ in range(150 if thorough else 40)]
     progs += generic_union_programs()
+    progs += [f["input"] for f in chk.findings if f.get("input")]
     K, P = (8, 4) if thorough else (4, 3)
     ids = []
     for i, t in enumerate(progs):
